@@ -119,12 +119,16 @@ class C02(Property):
     THOROUGH_BUDGET_S = 600
     RULE = ('a case is one whole history of dict-API calls (item get/set/del, get, setdefault, update with '
             'mapping/pairs/iterator/self/kwargs, |=, pop, popitem, clear, copy, in, len, iteration, ==/!= against '
-            'dicts and other caches) on LRI or LRU with max_size 1-5(8), on_miss None or k->a*k+b, over max_size+1..+3 '
-            'keys, ended by a probe that inserts fresh keys to expose the eviction order; every cache of the world is '
-            'dumped after every call. Exhaustive: all histories of <=2 calls (sampled: 3-4 calls) over a 3-key alphabet '
-            'for max_size 1-3, both classes, with/without on_miss; seeded random long histories; adversarial scripts '
-            '(reassign-oldest, lookup-oldest, |= overflow, copy after reordering, alias keys 1/1.0/True). '
-            'Non-trivial = at least one eviction happened in the reference cache; distinct = distinct whole case.')
+            'dicts and other caches) on an LRI or LRU with max_size 1-5 (8 in thorough), on_miss None or k->a*k+b, '
+            'optionally constructor values, over max_size+1..+3 keys (strings, or the aliases 1/1.0/True), ended by a '
+            'probe that inserts max_size fresh keys into every cache so that the eviction order becomes visible; '
+            'every cache of the world is dumped (items/keys/values/iter/len/in/counters/max_size/on_miss) after every '
+            'call. Exhaustive: all histories of <=2 calls over a 38-call alphabet on 3 keys x max_size 1-3 x both '
+            'classes x with/without on_miss; 18k (thorough 60k) sampled 3-5-call histories on pre-filled caches; '
+            'adversarial scripts (reassign-oldest, lookup-oldest, |=/update overflow with duplicates, copy after '
+            'reordering then diverge, remove-then-refill, == with equal-length dicts, self-update, copy of a copy); '
+            'random histories of 4-40 (thorough up to 300) calls. Non-trivial = at least one eviction happened in '
+            'the reference cache; distinct = distinct whole case.')
     ASSUMPTIONS = ['keys are hashable with == consistent with hash; values are compared with ==',
                    'on_miss is a pure function of the key: it neither raises nor touches the cache',
                    'max_size is an int >= 1 and is not reassigned after construction',
